@@ -3,6 +3,7 @@ pub mod common;
 pub mod derive;
 pub mod evalorder;
 pub mod generics;
+pub mod illtyped;
 pub mod lattice;
 pub mod methods;
 pub mod names;
@@ -38,6 +39,7 @@ pub fn all() -> Vec<Box<dyn Family>> {
         Box::new(derive::Derive),
         Box::new(names::NamesFamily),
         Box::new(names::Encoders),
+        Box::new(illtyped::IllTyped),
     ]
 }
 
